@@ -27,12 +27,12 @@ ACCELS = ["ethos-u55-128", "ethos-u65-256", "ethos-u55-64", "ethos-u65-512", "et
 NPU1 = ["conv1", "conv3", "dw3", "maxpool", "avgpool", "tanh", "logistic", "lrelu", "add_dup", "relu"]
 NPU2 = ["add", "sub", "mul"]
 CPU1 = ["round", "custom1", "floordiv_dup", "conv_dil", "conv_asym", "float_island", "custom_2out", "l2norm",
-        "dw_m_bad"]
+        "dw_m_bad", "tconv_faf", "tconv_s3"]
 CPU2 = ["floordiv", "custom2", "min_qmismatch", "dwconv_dyn"]
 CPU1X = ["dwconv_dyn_x", "custom2", "pack_like_concat"]     # ifm + one non-ifm operand
 CPU2X = ["concat3", "addn3", "custom3"]                      # ifm, ifm2 + one further operand
 MEMN = ["reshape_same", "reshape_pair"]
-MEMC = ["reshape_dyn"]
+MEMC = ["reshape_dyn", "reshape_qmismatch", "squeeze_qmismatch"]     # memory-only operators refused for the NPU
 
 
 class Builder:
@@ -154,6 +154,33 @@ class Builder:
             return n.reshape(a, self.shape, name=nm)
         if kind == "reshape_pair":
             t = n.reshape(a, [1, self.H * self.W, 1, C], name=nm + "_a")
+            return n.reshape(t, self.shape, name=nm)
+        if kind in ("tconv_faf", "tconv_s3"):
+            # TRANSPOSE_CONV kept on the CPU (unsupported fused activation / stride 3x3), constant weights; its feature
+            # map is operand 2, not operand 0
+            st = 3 if kind == "tconv_s3" else 1
+            oh, ow = self.H * st, self.W * st
+            osz = n.const(nm + "_oshape", [4], "INT32", data=[1, oh, ow, C])
+            wt = n.const(nm + "_w", [C, 3, 3, C], "INT8", -127, 127, scale=[0.01] * C, zp=[0] * C, qdim=0)
+            bt = n.const(nm + "_b", [C], "INT32", -100, 100, scale=[0.0005] * C, zp=[0] * C, qdim=0)
+            y = n.fm(nm + ("_up" if st == 3 else ""), [1, oh, ow, C], "INT8", 0.1, 0)
+            n.op("TRANSPOSE_CONV", [osz, wt, a, bt], [y],
+                 ["TransposeConvOptions", {"Padding": 0, "StrideW": st, "StrideH": st,
+                                           "FusedActivationFunction": 5 if st == 1 else 0}])
+            if st == 3:
+                z = n.fm(nm, self.shape, "INT8", 0.1, 0)
+                n.op("MAX_POOL_2D", [y], [z], ["Pool2DOptions", {"Padding": 1, "StrideW": 3, "StrideH": 3, "FilterWidth": 3,
+                                                                 "FilterHeight": 3, "FusedActivationFunction": 0}])
+                return z
+            return y
+        if kind == "reshape_qmismatch":     # constant shape but input / output quantisation differ: refused for the NPU
+            sh = n.const(nm + "_shape", [4], "INT32", data=list(self.shape))
+            y = n.fm(nm, self.shape, "INT8", 0.0777, 4)
+            n.op("RESHAPE", [a, sh], [y], ["ReshapeOptions", {"NewShape": list(self.shape)}])
+            return y
+        if kind == "squeeze_qmismatch":
+            t = n.fm(nm + "_sq", self.shape[1:], "INT8", 0.0666, -2)
+            n.op("SQUEEZE", [a], [t], ["SqueezeOptions", {"SqueezeDims": [0]}])
             return n.reshape(t, self.shape, name=nm)
         if kind == "reshape_dyn":
             s = n.fm(nm + "_shape", [4], "INT32", None, is_input=True)
@@ -310,8 +337,21 @@ def infer_absorbed(S, O):
     return A
 
 
-def preserve_event(t, src_bytes, out_bytes, reparse):
+def cpu_marked(S, passlog):
+    """Source operators the compiler itself kept off the NPU when it packed the passes (run_on_npu False):
+    1-based indices into S.ops, matched by operator name (= name of the first output tensor)."""
+    names = set()
+    for e in passlog or []:
+        if e["ev"] == "packed":
+            for p in e["passes"]:
+                if p["pl"] in ("Cpu", "Mem") and not p["na"]:
+                    names.update(p.get("opnames", []))
+    return [i for i, o in enumerate(S["ops"], 1) if o["outs"] and o["outs"][0] in names]
+
+
+def preserve_event(t, src_bytes, out_bytes, reparse, passlog=None):
     S = tla_graph(flatmodel.abstract(src_bytes))
+    marked = cpu_marked(S, passlog)
     try:
         og = flatmodel.abstract(out_bytes)
         plain_ok = True
@@ -320,11 +360,9 @@ def preserve_event(t, src_bytes, out_bytes, reparse):
         why = str(e)
     if not plain_ok:
         return {"t": t, "src": S, "out": {"ins": [], "outs": [], "ops": [], "consts": []}, "absorbed": [],
-                "reparse_plain": False, "reparse_vela": bool(reparse and reparse.get("ok")), "why": why}
-    if og["n_subgraphs"] != 1:
-        raise MachineryError("unexpected number of subgraphs in the output model: %d" % og["n_subgraphs"])
+                "marked": marked, "reparse_plain": False, "reparse_vela": bool(reparse and reparse.get("ok")), "why": why}
     O = tla_graph(og)
-    return {"t": t, "src": S, "out": O, "absorbed": infer_absorbed(S, O), "reparse_plain": True,
+    return {"t": t, "src": S, "out": O, "absorbed": infer_absorbed(S, O), "marked": marked, "reparse_plain": True,
             "reparse_vela": bool(reparse and reparse.get("ok"))}
 
 
@@ -363,7 +401,13 @@ def explain_preserve(name, ev):
                 field = ["shape", "type", "quant"][[k for k in range(3) if fs[k] != fo[k]][0]]
                 return "SameInterface|%s|%s" % (role, field), "%s: %s -> %s" % (d[0][0], d[0][1], d[1][1])
     if name == "KeptOnce":
-        absorbed = {i for a in A for i in a}
+        absorbed = {i for a in A for i in a} - set(ev.get("marked", []))
+        for i in ev.get("marked", []):
+            o = S["ops"][i - 1]
+            if not [q for q in O["ops"] if q["code"] == o["code"] and q["outs"] == o["outs"]]:
+                return ("KeptOnce|cpu-marked-but-missing|%s" % o["code"],
+                        "the compiler kept %s producing %s off the NPU, yet it does not appear in the output "
+                        "(absorbed claim %s)" % (o["code"], o["outs"], A))
         for i, o in enumerate(S["ops"], 1):
             if i in absorbed:
                 continue
@@ -415,15 +459,17 @@ def explain_partition(name, ev, passes):
 
 
 # ------------------------------------------------------------------------------------------------
-def negative_controls(run, pres_events, part_events):
-    """Corrupt recorded traces in ways the properties must reject."""
+GOLDEN = os.path.join(os.path.dirname(os.path.dirname(os.path.abspath(__file__))), "golden", "c11_controls.json")
+
+
+def negative_controls(run):
+    """Corrupt *frozen* records (harness/golden/c11_controls.json: one mixed CPU/NPU compilation recorded from
+    the unchanged tree) in ways the properties must reject.  Nothing here depends on the tree under test."""
     import copy
-    base = next((e for e in pres_events if e["reparse_plain"] and len(e["out"]["ops"]) >= 3 and
-                 any(a for a in e["absorbed"]) and
-                 any(o["code"] != "CUSTOM:ethos-u" for o in e["out"]["ops"])), None)
-    if base is None:
-        raise MachineryError("negative control: no mixed CPU/NPU compilation in the batch")
-    muts = []
+    with open(GOLDEN) as f:
+        gold = json.load(f)
+    base, pb = gold["preserve"], gold["partition"]
+    muts = [("golden record itself", None, dict(copy.deepcopy(base), t=0))]
 
     def mut(name, expect, f):
         e = copy.deepcopy(base)
@@ -431,45 +477,60 @@ def negative_controls(run, pres_events, part_events):
         e["t"] = len(muts)
         muts.append((name, expect, e))
 
-    cpu_j = next(j for j, o in enumerate(base["out"]["ops"]) if o["code"] != "CUSTOM:ethos-u")
+    cpu_j = next(j for j, o in enumerate(base["out"]["ops"]) if o["code"] == "ROUND")
     npu_j = next(j for j, o in enumerate(base["out"]["ops"]) if o["code"] == "CUSTOM:ethos-u")
+    src_round = next(i for i, o in enumerate(base["src"]["ops"], 1) if o["code"] == "ROUND")
     mut("drop kept operator", "KeptOnce", lambda e: (e["out"]["ops"].pop(cpu_j), e["absorbed"].pop(cpu_j)))
     mut("change options", "KeptOnce", lambda e: e["out"]["ops"][cpu_j].update(opts="X:000"))
     mut("change version", "KeptOnce", lambda e: e["out"]["ops"][cpu_j].update(ver=e["out"]["ops"][cpu_j]["ver"] + 1))
+    mut("rewire kept operator", "KeptOnce", lambda e: e["out"]["ops"][cpu_j].update(ins=["conv0_cpu"]))
     mut("duplicate kept operator", "KeptOnce",
         lambda e: (e["out"]["ops"].append(copy.deepcopy(e["out"]["ops"][cpu_j])), e["absorbed"].append([])))
+
+    def swallow(e):     # the CPU-marked ROUND disappears into the following ethos-u operator, claim adjusted to match
+        e["out"]["ops"].pop(cpu_j)
+        e["absorbed"].pop(cpu_j)
+        last = len(e["out"]["ops"]) - 1
+        e["absorbed"][last] = sorted(set(e["absorbed"][last]) | {src_round})
+        e["out"]["ops"][last]["ins"] = [("conv0" if t == "cpu1" else t) for t in e["out"]["ops"][last]["ins"]]
+    mut("cpu-marked operator absorbed", "KeptOnce", swallow)
     mut("reverse operator order", "OutTopo", lambda e: (e["out"]["ops"].reverse(), e["absorbed"].reverse()))
-    mut("swap outputs / change quant", "SameInterface",
+    mut("change output quantisation", "SameInterface",
         lambda e: e["out"]["outs"].__setitem__(0, [e["out"]["outs"][0][0], e["out"]["outs"][0][1] + "x"]))
-    mut("drop an NPU operand", "CustomOpBoundary",
+    mut("swap subgraph outputs", "SameInterface", lambda e: e["out"]["outs"].reverse())
+    mut("extra NPU result", "CustomOpBoundary",
         lambda e: e["out"]["ops"][npu_j].update(outs=e["out"]["ops"][npu_j]["outs"] + ["bogus"]))
     mut("absorbed claim too large", "CustomOpBoundary",
-        lambda e: e["absorbed"].__setitem__(npu_j, sorted(set(e["absorbed"][npu_j]) | {
-            next(i for i in range(1, len(e["src"]["ops"]) + 1) if i not in e["absorbed"][npu_j])})))
+        lambda e: e["absorbed"].__setitem__(npu_j, sorted(set(e["absorbed"][npu_j]) | {src_round})))
     mut("vela reader rejects", "Reparse", lambda e: e.update(reparse_vela=False))
     res, viol = tlc.validate_traces("PreserveTrace", "PreserveTrace.cfg", [m[2] for m in muts])
     got = {}
     for t, name in viol:
         got.setdefault(t, set()).add(name)
     for k, (name, expect, _) in enumerate(muts):
-        if expect not in got.get(k, set()):
+        if expect is None:
+            if got.get(k):
+                raise MachineryError("negative control: the golden record is rejected (%s)" % got[k])
+        elif expect not in got.get(k, set()):
             raise MachineryError("negative control '%s' not rejected as %s (got %s)" % (name, expect, got.get(k)))
-    pb = next((e for e in part_events if e["has_runs"] and len(e["pl"]) >= 4 and e["runs"]), None)
-    if pb is None:
-        raise MachineryError("negative control: no partitioned pass list in the batch")
-    pm = []
+    pm = [("golden pass list itself", None, copy.deepcopy(pb))]
     e = copy.deepcopy(pb)
-    m = len(e["pl"])
-    e["prod"][1] = e["prod"][1] + [m]
+    e["prod"][1] = e["prod"][1] + [len(e["pl"])]
     pm.append(("producer after consumer", "TopoOrder", e))
     e = copy.deepcopy(pb)
     e["cseq"] = list(reversed(e["cseq"]))
     pm.append(("call operator misplaced", "CallOpAtRunStart", e))
     e = copy.deepcopy(pb)
-    cpu_pass = next((i + 1 for i, p in enumerate(e["pl"]) if p == "Cpu"), None)
-    if cpu_pass:
-        e["runs"][0] = e["runs"][0] + [cpu_pass]
-        pm.append(("CPU pass inside a run", "RunsWellFormed", e))
+    cpu_pass = next(i + 1 for i, p in enumerate(e["pl"]) if p == "Cpu")
+    e["runs"][0] = e["runs"][0] + [cpu_pass]
+    pm.append(("CPU pass inside a run", "RunsWellFormed", e))
+    e = copy.deepcopy(pb)           # a memory-only pass that was refused for the NPU, swallowed by the neighbouring run
+    e["pl"][3], e["na"][3] = "Mem", False
+    e["runs"], e["cseq"] = [[2], [4, 5, 6]], [1, -1, 3, -2]
+    pm.append(("CPU-only memory-only pass inside a run", "RunsWellFormed", e))
+    e = copy.deepcopy(pb)
+    e["runs"], e["cseq"] = [[2], [5], [6]], [1, -1, 3, 4, -2, -3]
+    pm.append(("run split in two", "RunsAreMaximal", e))
     for k, (_, _, e) in enumerate(pm):
         e["t"] = k
     res2, viol2 = tlc.validate_traces("PartitionTrace", "PartitionTrace.cfg", [m_[2] for m_ in pm])
@@ -477,9 +538,18 @@ def negative_controls(run, pres_events, part_events):
     for t, name in viol2:
         got.setdefault(t, set()).add(name)
     for k, (name, expect, _) in enumerate(pm):
-        if expect not in got.get(k, set()):
+        if expect is None:
+            if got.get(k):
+                raise MachineryError("negative control: the golden pass list is rejected (%s)" % got[k])
+        elif expect not in got.get(k, set()):
             raise MachineryError("negative control '%s' not rejected as %s (got %s)" % (name, expect, got.get(k)))
-    run.cov["negative_controls"] = [m[0] for m in muts] + [m[0] for m in pm]
+    run.cov["negative_controls"] = [m[0] for m in muts[1:]] + [m[0] for m in pm[1:]]
+
+
+def _validate(module, cfg, events, timeout=1800):
+    if not events:          # nothing was observed (e.g. the tree under test compiles nothing): no verdict from this trace
+        return tlc.TlcResult(status="ok", distinct=0, generated=0, wall=0, printed=[], output=""), []
+    return tlc.validate_traces(module, cfg, events, timeout=timeout)
 
 
 def model_check(run, tier):
@@ -558,7 +628,7 @@ def _main(run, tier):
             part.append(e)
         part_passes[t] = [e["passes"] for e in r.get("passlog", []) if e["ev"] == "packed"]
         if r["rc"] == 0 and r.get("out_bytes"):
-            ev = preserve_event(t, r["in_bytes"], r["out_bytes"], r.get("reparse"))
+            ev = preserve_event(t, r["in_bytes"], r["out_bytes"], r.get("reparse"), r.get("passlog"))
             pres.append(ev)
             ncpu = sum(1 for o in ev["out"]["ops"] if o["code"] != "CUSTOM:ethos-u")
             nnpu = len(ev["out"]["ops"]) - ncpu
@@ -571,16 +641,14 @@ def _main(run, tier):
         else:
             sig = crash_signature(r)
             crashes[sig] = crashes.get(sig, 0) + 1
-    if not pres:
-        raise MachineryError("no compilation succeeded: " + json.dumps(crashes)[:1000])
     # ---- C2S
-    res1, viol1 = tlc.validate_traces("PartitionTrace", "PartitionTrace.cfg", part, timeout=1800)
+    res1, viol1 = _validate("PartitionTrace", "PartitionTrace.cfg", part)
     run.add_trace_run("PartitionTrace", res1, len(part))
     drift = []
     for p in res1["printed"]:
         if p.startswith('<<"DRIFT"'):
             drift = json.loads(tlc.parse_value(p)[1] or "[]")
-    res2, viol2 = tlc.validate_traces("PreserveTrace", "PreserveTrace.cfg", pres, timeout=1800)
+    res2, viol2 = _validate("PreserveTrace", "PreserveTrace.cfg", pres)
     run.add_trace_run("PreserveTrace", res2, len(pres))
     by_t_part = {}
     for e in part:
@@ -598,7 +666,7 @@ def _main(run, tier):
         key, what = explain_preserve(name, by_t[t])
         run.violation(key, "%s: %s [%s %s]" % (name, what, meta[t]["family"], meta[t].get("kinds", "")),
                       {"net": jobs[t]["net"], "opts": jobs[t]["opts"], "event": by_t[t]})
-    negative_controls(run, pres, part)
+    negative_controls(run)
     run.cov["model_drift"] = {"partition_transcription_vs_code": len(drift), "examples": drift[:5]}
     run.cov["compilations"] = {"total": len(jobs), "compiled": len(pres), "not_compiled": crashes}
     run.cov["rule"] = ("graphs = final states of Partition.tla behaviours drawn by TLC -simulate (DAG x placement, extra "
@@ -622,7 +690,7 @@ def replay(path):
         _, v = tlc.validate_traces("PartitionTrace", "PartitionTrace.cfg", part)
         bad += v
     if r["rc"] == 0 and r.get("out_bytes"):
-        ev = preserve_event(0, r["in_bytes"], r["out_bytes"], r.get("reparse"))
+        ev = preserve_event(0, r["in_bytes"], r["out_bytes"], r.get("reparse"), r.get("passlog"))
         _, v = tlc.validate_traces("PreserveTrace", "PreserveTrace.cfg", [ev])
         bad += v
     print("rc=%s violations=%s" % (r["rc"], bad))
